@@ -646,7 +646,7 @@ def model_apply(S_: Side, op):
     if any(n.btype == 'ArgFactory' for n in enum_nodes(root)):
       raise Skip()   # building a bare ArgFactory is documented as unsupported
     try:
-      return C.canon(M.model_build(root, {}))
+      return C.canon(M.model_build(root, {}), kw_unordered=True)
     except (M.Unformable, TypeError, NotImplementedError):
       return 'RAISES'
   raise ValueError(k)
@@ -774,7 +774,10 @@ def impl_apply(S_: Side, op):
                   tagging.list_tags(src, add_superclasses=op['supers']))
   elif k == 'build':
     try:
-      return C.canon(fdl.build(src))
+      # (the order of **kwargs entries is storage order, which transports and
+      # callable swaps may legitimately canonicalise: compared by key here; C01
+      # and C03 pin the order for plain edit histories)
+      return C.canon(fdl.build(src), kw_unordered=True)
     except Exception:  # pylint: disable=broad-except
       return 'RAISES'
   else:
